@@ -133,6 +133,15 @@ impl FeoxStore {
         let total_size = format.total_size(source.key.len(), source.value_len);
         let sectors_needed = total_size.div_ceil(FEOX_BLOCK_SIZE);
 
+        // The pin is reported before the device guard is taken: from here until the
+        // unpin below nothing may write these blocks.
+        #[cfg(all(feature = "verif", target_os = "linux"))]
+        if let Some(file_id) = self.disk_io.as_ref().map(|disk_io| disk_io.read().verif_file_id()) {
+            crate::verif::extent_pinned(file_id, sector, sectors_needed as u64);
+        }
+        #[cfg(feature = "verif")]
+        crate::verif::sched("read.pinned.unlocked", sector, sectors_needed as u64);
+
         // Read the sectors
         let disk_io = self
             .disk_io
@@ -145,8 +154,6 @@ impl FeoxStore {
             })?
             .read();
 
-        #[cfg(all(feature = "verif", target_os = "linux"))]
-        crate::verif::extent_pinned(disk_io.verif_file_id(), sector, sectors_needed as u64);
         #[cfg(feature = "verif")]
         crate::verif::sched("read.before_pread", sector, sectors_needed as u64);
         let data = disk_io.read_sectors_sync(sector, sectors_needed as u64)?;
